@@ -13,9 +13,9 @@ def configs(tier):
     q = tier == "quick"
     return [
         ("short", ["Bytes = {97, 32, 0, 200}", "Blocks <- BlocksShort", "Lmax = %d" % (3 if q else 4), "TrimSets <- TrimSetsDef",
-                   "CPs = {65, 233, 8364, 128512, 2097152, 2147483647}", "Fmts = {1, 2}", "PopCounts = {0, 1, 2, 1000000}", "CmpSet <- CmpShort"]),
+                   "CPs = {65, 233, 8364, 128512, 1048576, 1114111, 2097151, 2097152, 67108863, 67108864, 2147483647}", "Fmts = {1, 2}", "PopCounts = {0, 1, 2, 1000000}", "CmpSet <- CmpShort"]),
         ("utf", ["Bytes = {97}", "Blocks <- BlocksLong", "Lmax = 8", "TrimSets <- TrimSetsDef",
-                 "CPs = {65, 233, 8364, 128512, 2097152, 2147483647}", "Fmts = {1}", "PopCounts = {1}", "CmpSet <- BlocksLong"]),
+                 "CPs = {65, 233, 8364, 128512, 1048576, 1114111, 2097151, 2097152, 67108863, 67108864, 2147483647}", "Fmts = {1}", "PopCounts = {1}", "CmpSet <- BlocksLong"]),
         ("mid", ["Bytes = {97, 32}", "Blocks <- BlocksMid", "Lmax = %d" % (9 if q else 11), "TrimSets <- TrimSetsDef",
                  "CPs = {97}", "Fmts = {1, 6, 8}", "PopCounts = {0, 1, 9, 1000000}", "CmpSet <- BlocksMid"]),
         ("long", ["Bytes = {97}", "Blocks <- BlocksLong", "Lmax = %d" % (17 if q else 25), "TrimSets <- TrimSetsDef",
